@@ -191,10 +191,12 @@ class FileCtx:
         if missing:
             raise Undecided('items under contract not found in %s: %s' % (self.rel, sorted(missing)))
 
-    def guard(self, fn, expected, impl=None, why=''):
+    def guard(self, fn, expected, impl=None, why='', block=None):
         """text guard: a function that is NOT verified but whose (comment-stripped, whitespace-
         normalised) source text a lemma restates; if it changes the unit is undecided."""
-        self.unit.entries.append(Guard(self.rel, fn, impl, expected, why))
+        g = Guard(self.rel, fn, impl, expected, why)
+        g.block = block          # regex of a block header other than an impl (e.g. r'pub trait SourceTrait') that holds the function
+        self.unit.entries.append(g)
 
 
 class ImplGroup:
@@ -323,7 +325,18 @@ class Unit:
             elif isinstance(e, Guard):
                 rf = self._rf(e.file)
                 try:
-                    if e.impl:
+                    if getattr(e, 'block', None):
+                        it = None
+                        for mb in rf.code_finditer(e.block + r'[^{;]*\{', 0, len(rf.src)):
+                            bo = mb.end() - 1
+                            try:
+                                it = rf.find_fn(e.fn, (bo + 1, rf.match_brace(bo) - 1), rf.depth[bo] + 1)
+                                break
+                            except KeyError:
+                                continue
+                        if it is None:
+                            raise KeyError(e.fn)
+                    elif e.impl:
                         it = None
                         for blk in rf.find_all_impls(e.impl):
                             try:
